@@ -36,7 +36,8 @@ def run(chk, ctx) -> None:
     # engine's evaluator) with None for "no hand" and nothing else - no memo, no reordering
     from . import c05
     from .helpers import Refile
-    c05.run(Refile(chk, {'C05.errors': 'C18.shares'}, only=lambda r, c: c == 'Hand.from_game_or_none'), ctx)
+    from .helpers import foreign
+    foreign(chk, c05.run, Refile(chk, {'C05.errors': 'C18.shares'}, only=lambda r, c: c == 'Hand.from_game_or_none'), ctx)
 
 
 def _cases(pr):
